@@ -57,7 +57,11 @@ func fmtOf(src string) (formatted string, ok bool, why string) {
 	if prog == nil {
 		return "", false, "not accepted: " + perr + pp
 	}
-	return prog.Format(), true, ""
+	f1 := prog.Format()
+	if f2 := prog.Format(); f2 != f1 {
+		return f1, false, "Go panic in Format: NOT (second call of Format on the same Program returns a different text): " + DiffAt(f1, f2)
+	}
+	return f1, true, ""
 }
 
 var reTrail = regexp.MustCompile(`[ \t]+\n`)
@@ -189,7 +193,8 @@ func c06Handwritten() []string {
 		"func f:num a:num b:[]string c:{}any... // sig\n    return a // r\nend\non key k:string // h\n    print k\nend\nprint (f 1 []) (f 1 [] {}) // call\n",
 		"x := 1\nprint x+1 x-1 -x (x + 1) (x - -x) [x x+1] {a:x b:-x}\nprint x*2+1 (x*(2+1)) !(x == 1) (x < 2 and x > 0 or true)\ns := \"a\"\nprint s[0] s[0:1] s[:1] s[1:] s[:] \"a\"[0] [1 2][1:]\n",
 		"x:any\nx = 1\nprint x.(num) (x.(num) + 1)\nm := {a:{b:[1 2]}}\nprint m.a.b[0] m[\"a\"][\"b\"][1]\nm.a.b[0] = 3\narr:[]{}num\narr = [{a:1}]\narr[0].a = 2\nprint arr\n",
-		"print \"tab\\there\" \"quote\\\"q\" \"back\\\\slash\" \"nl\\nx\" \"é日本🙂\"\nprint 1.50 007 1000000 0.1 1e3\n",
+		"print \"tab\\there\" \"quote\\\"q\" \"back\\\\slash\" \"nl\\nx\" \"é日本🙂\"\nprint 1.50 007 1000000 0.1\n",
+		"big := 1000000\nhuge := 123456789012345678\neps := 0.00001\ntiny := 0.000000000123\nprint big huge eps tiny 999999 0.0001 1000000.5 100000000000000000000000\nprint [1000000 0.00001] {a:10000000}\n",
 		"func a\n    print 1\nend\nfunc b\n    print 2\nend\n// c comment\nfunc c\n    print 3\nend\nprint 0\n// trailing\non down\n    print 4\nend\na\nb\nc\n",
 		"print 1\n\n\n\nprint 2\n   \n\t\nprint 3\n",
 		"\n\n// only comments\n\n// more\n",
@@ -510,8 +515,11 @@ func RunC07(d *Driver) *Report {
 	nprog, nbin := 0, 0
 	known := KnownIDs()
 	canon := func(stream, src, want string) string {
-		f, ok, _ := fmtOf(src)
+		f, ok, why0 := fmtOf(src)
 		if !ok {
+			if strings.Contains(why0, "second call of Format") || strings.HasPrefix(why0, "Go panic") {
+				r.Violation(Case{Stream: stream + ":idempotent", Input: src, Real: why0, Spec: "formatting the same program twice gives the same text"})
+			}
 			return ""
 		}
 		nprog++
